@@ -4,6 +4,7 @@ import (
 	"testing"
 
 	"verif/engines/execsim"
+	"verif/engines/loadersim"
 	"verif/sim"
 )
 
@@ -22,6 +23,21 @@ var engines = map[string]sim.Engine{
 			panic("execsim: unknown property " + env.Prop)
 		}
 	},
+}
+
+func init() {
+	engines["loadersim"] = func(env *sim.Env) {
+		switch env.Prop {
+		case "C15":
+			loadersim.RunC15(env)
+		case "C16":
+			loadersim.RunC16(env)
+		case "C19":
+			loadersim.RunC19(env)
+		default:
+			panic("loadersim: unknown property " + env.Prop)
+		}
+	}
 }
 
 // TestWorker is the worker process entry point (started by simdriver).
